@@ -362,6 +362,18 @@ class Interp:
             return BoundModel(_PyBuiltinMethods(obj), name)
         raise Unsupported(f"attribute .{name} of {type(obj).__name__}")
 
+    def rebind(self, old, new):
+        """replace every reference to the interpreter value `old` held by a local variable or an instance field"""
+        for fr in self.frames:
+            seen = set()
+            env = fr.env
+            while isinstance(env, dict) and id(env) not in seen:
+                seen.add(id(env))
+                for nm, v in list(env.items()):
+                    if v is old:
+                        env[nm] = new
+                env = env.get("__parent__")
+
     def setattr(self, obj, name, v):
         if isinstance(obj, Instance):
             obj.fields[name] = v
@@ -1437,7 +1449,15 @@ class _PyBuiltinMethods(ModelObj):
             if name == "copy":
                 return dict(o)
             if name == "update":
-                for k, v in I.dict_items(args[0]):
+                src = args[0]
+                if isinstance(src, ModelObj) and not isinstance(src, AssocDict) and hasattr(src, "do_copy"):
+                    if o:
+                        raise Unsupported("non-empty concrete dict updated with a symbolic dict")
+                    # {}.update(D) for a symbolic dict D: the (still empty) dict becomes a copy of D; every variable
+                    # that refers to it is re-bound to the copy
+                    I.rebind(o, src.do_copy(I))
+                    return None
+                for k, v in I.dict_items(src):
                     o[k] = v
                 return None
             if name == "pop":
